@@ -470,10 +470,15 @@ class SchemaGen(object):
         plain_named_like_root = None
         if rng.random() < 0.08 and objs:
             plain_named_like_root = rng.choice(["Mutation", "Subscription"])
+            if self.features.get("mutation") and plain_named_like_root == "Mutation":
+                plain_named_like_root = "Subscription"
+            if self.features.get("subscription") and plain_named_like_root == "Subscription":
+                plain_named_like_root = None
             o = rng.choice(objs)
             old = o.name
-            self.rename_type(old, plain_named_like_root)
-            composite = [plain_named_like_root if n == old else n for n in composite]
+            if plain_named_like_root is not None:
+                self.rename_type(old, plain_named_like_root)
+                composite = [plain_named_like_root if n == old else n for n in composite]
         # one object type may serve several operations (schema { query: Root, mutation: Root })
         shared = self.features.get("shared_roots")
         if shared is None:
